@@ -711,6 +711,10 @@ fn wm_value_lists(rng: &mut Rng, thorough: bool) -> Vec<Vec<u64>> {
         v.push((0..len).map(|_| rng.below(1u64 << w)).collect());
     }
     v.push(vec![4096, 0, 4096, 1, 2048]);
+    // gaps in the alphabet at power-of-two lengths (the offset table stores the length for an absent value)
+    for k in [1u32, 3, 6, 8] {
+        v.push((0..(1usize << k)).map(|i| if i % 3 == 0 { 0 } else { 2 + 3 * rng.below(3) }).collect());
+    }
     // levels of very different sizes: every value shares the top bits (level 0 all ones: no unset bits to index), a
     // long constant vector, two-letter text in a wide alphabet
     v.push((0..400).map(|_| *rng.pick(&[65u64, 67, 71, 84])).collect());
